@@ -1399,6 +1399,10 @@ class RTCPeerConnection(AsyncIOEventEmitter):
             if not media.ice.usernameFragment or not media.ice.password:
                 raise ValueError("ICE username fragment or password is missing")
 
+            # check DTLS parameters were provided
+            if media.dtls is None:
+                raise ValueError("DTLS setup attribute is missing")
+
             # check DTLS role is allowed
             if description.type in ["answer", "pranswer"] and media.dtls.role not in [
                 "client",
